@@ -1513,6 +1513,51 @@ func funcSetpathWithAllocator(v any, args []any) any {
 	return setpath(v, args[0], args[1], args[2].(allocator))
 }
 
+// Used in compiler#compileModify. The value at the path has been passed to the
+// update function, whose result may share structure with it, so the containers
+// reachable from it must not be updated in place anymore.
+func funcModifypathWithAllocator(v any, args []any) any {
+	a := args[2].(allocator)
+	if path, ok := args[0].([]any); ok && len(a) > 0 {
+		a.release(v, path)
+	}
+	return setpath(v, args[0], args[1], a)
+}
+
+func (a allocator) release(v any, path []any) {
+	for i, p := range path {
+		if _, ok := p.(map[string]any); ok && i == len(path)-1 {
+			break // a slice shares the array with its parent
+		}
+		switch v.(type) {
+		case []any, map[string]any:
+			v = funcIndex2(nil, v, p)
+		default:
+			return
+		}
+	}
+	a.releaseAll(v)
+}
+
+func (a allocator) releaseAll(v any) {
+	switch v := v.(type) {
+	case []any:
+		if a.allocated(v) {
+			delete(a, reflect.ValueOf(v).Pointer())
+			for _, v := range v {
+				a.releaseAll(v)
+			}
+		}
+	case map[string]any:
+		if a.allocated(v) {
+			delete(a, reflect.ValueOf(v).Pointer())
+			for _, v := range v {
+				a.releaseAll(v)
+			}
+		}
+	}
+}
+
 func setpath(v, p, n any, a allocator) any {
 	path, ok := p.([]any)
 	if !ok {
